@@ -74,12 +74,51 @@ def run_case(seed, tier, rec, st):
         tg = TypeGen(fam, rng, dc_config_fn=config_fn, allow_pattern=False, allow_any=True, mixins=("DataClassDictMixin",))
         tg.allow_self = False
         tg.allow_stype = False       # a SerializableType without annotations has no schema
+        tg.boxed_prob = 0.25         # overridden serialization is a schema feature of its own
         tg.lit_conflate = True       # Literal[0, False] / Literal[1, True]: equal for Python, distinct for JSON
         kind = rng.random()
         facts = {"kind": "grammar"}
         values = None
         ns = fam.module.__dict__
-        if kind < 0.1:
+        if kind < 0.07:
+            # one type customised at several levels at once, some registrations one-way: the schema must describe what
+            # the serializer (which falls through to the next level for the missing direction) really writes
+            fam.exec_src("def ser_int(v: datetime.date) -> int:\n    return v.toordinal()\n"
+                         "def ser_str(v: datetime.date) -> str:\n    return 'D' + v.isoformat()\n"
+                         "def ser_list(v: datetime.date) -> List[int]:\n    return [v.year, v.month, v.day]\n"
+                         "def de_any(v):\n    return datetime.date(2000, 1, 1)\n")
+            def level(name):
+                x = rng.random()
+                if x < 0.35:
+                    return None
+                if x < 0.6:
+                    return "{'deserialize': de_any}"
+                return "{'serialize': %s, 'deserialize': de_any}" % rng.choice(["ser_int", "ser_str", "ser_list"])
+            fld, dia, cfgs = level("field"), level("dialect"), level("config")
+            alias = rng.choice([None, "ann", "meta"])
+            ann = "Annotated[datetime.date, Alias('AX')]" if alias == "ann" else "datetime.date"
+            meta = []
+            if fld:
+                meta.append(f"serialization_strategy={fld}")
+            if alias == "meta":
+                meta.append("alias='AX'")
+            src_ = ""
+            if dia:
+                src_ += f"class DL(Dialect):\n    serialization_strategy = {{datetime.date: {dia}}}\n"
+            src_ += ("@dataclass\nclass Lv(DataClassDictMixin):\n"
+                     f"    x: {ann}" + (f" = field(metadata=field_options({', '.join(meta)}))" if meta else "") + "\n"
+                     f"    xs: List[datetime.date] = field(default_factory=list)\n"
+                     "    class Config(BaseConfig):\n        serialize_by_alias = True\n"
+                     + (f"        serialization_strategy = {{datetime.date: {cfgs}}}\n" if cfgs else "")
+                     + ("        dialect = DL\n" if dia else ""))
+            fam.exec_src(src_)
+            facts = {"kind": "strategy-levels", "field": fld, "dialect": dia, "config": cfgs, "alias": alias}
+            import datetime
+            values = [fam.module.Lv(datetime.date(2020, 1, 2), [datetime.date(2021, 3, 4)]), fam.module.Lv(datetime.date(1999, 12, 31))]
+            tsrc = "Lv"
+            T = fam.module.Lv
+            t = None
+        elif kind < 0.15:
             # same-named classes of two modules / generic specialised twice
             other = Family("c06other")
             other.exec_src("@dataclass\nclass Item:\n    sku: str\n    qty: int = 0\n")
